@@ -39,7 +39,7 @@ pub fn bounds(tier: Tier) -> Bounds {
             e1_max_appends: env("VERIF_RAFT_E1_APPENDS", 2) as u8,
             e1_state_cap: env("VERIF_RAFT_E1_CAP", 60_000_000),
             e2_k: env("VERIF_RAFT_E2_K", 4) as u32,
-            e2_max_appends: env("VERIF_RAFT_E2_APPENDS", 3) as u8,
+            e2_max_appends: env("VERIF_RAFT_E2_APPENDS", 4) as u8,
             e2_walk_cap: env("VERIF_RAFT_E2_WALK", 600) as u32,
             e2_state_cap: env("VERIF_RAFT_E2_CAP", 150_000_000),
             e2_term_cap: env("VERIF_RAFT_E2_TERM_CAP", 8),
@@ -98,7 +98,7 @@ pub fn run(args: &Args) -> i32 {
         json!({
             "nodes": N, "quantum_ms": QUANTUM_MS, "election_factor_ms": ELECTION_FACTOR_MS, "heartbeat_ms": HEARTBEAT_MS, "term_timeout_ms": TERM_TIMEOUT_MS, "age_cap_ms": AGE_CAP_MS,
             "e1_depth": b.e1_depth, "e1_max_duplications": b.e1_max_dups, "e1_max_client_appends": b.e1_max_appends, "e1_state_cap_per_base": b.e1_state_cap,
-            "e2_max_deviations": b.e2_k, "e2_max_client_appends": b.e2_max_appends, "e2_walk_cap_steps": b.e2_walk_cap, "e2_state_cap": b.e2_state_cap, "e2_term_cap": b.e2_term_cap,
+            "e2_max_deviations": b.e2_k, "e2_max_client_appends_including_base_prefix": b.e2_max_appends, "e2_walk_cap_steps": b.e2_walk_cap, "e2_state_cap": b.e2_state_cap, "e2_term_cap": b.e2_term_cap,
         }),
     );
     report.set("e1", json!({"regime": "all interleavings of Tick / Proc(i) / Deliver(m) / DeliverDup(m) / Append(leader), breadth-first, exact deduplication", "per_base": per_base, "states": e1_states, "transitions": e1_trans, "executions_to_depth_bound": e1_last, "wall_s": t_e1}));
